@@ -163,6 +163,17 @@ def is_pure(expr, extra_pure=()):
     return True
 
 
+def _mutable_value(e):
+    """a freshly built mutable container: an object with identity, never to be duplicated by substitution"""
+    if isinstance(e, (ast.Dict, ast.List, ast.Set, ast.ListComp, ast.DictComp, ast.SetComp)):
+        return True
+    if isinstance(e, ast.Call) and _callee(e) in ("list", "dict", "set", "bytearray", "defaultdict", "SizeConstraint", "SizeConstraintList"):
+        return True
+    if isinstance(e, ast.IfExp):
+        return _mutable_value(e.body) or _mutable_value(e.orelse)
+    return False
+
+
 def _roots_written(node):
     """names whose object or binding is written by this node (statement level)"""
     out = set()
@@ -285,6 +296,8 @@ def forward_substitute(fn, candidates, extra_pure=()):
                 rhs = st.value
                 if not is_pure(rhs, extra_pure):
                     continue
+                if _mutable_value(rhs) and any(var in _roots_written(s_) for s_ in lst[i + 1:]):
+                    continue  # a container that is filled in later is an object, not a value
                 uses = [n for n in _walk_fn(fn) if isinstance(n, ast.Name) and n.id == var and isinstance(n.ctx, ast.Load)]
                 if not uses:
                     continue  # nothing to substitute: the statement stays (rules may care that the expression is evaluated)
@@ -473,7 +486,18 @@ class Helper:
         self.owner = owner_class
         self.name = fn.name
         a = fn.args
-        self.simple = not (a.vararg or a.kwarg or a.posonlyargs) and not fn.decorator_list and isinstance(fn, ast.FunctionDef)
+        self.kwname = a.kwarg.arg if a.kwarg else None
+        # a `**kwargs` parameter is supported when the body only ever hands it on as `**kwargs` in calls
+        kw_ok = True
+        if self.kwname:
+            for n in _walk_fn(fn):
+                if isinstance(n, ast.Name) and n.id == self.kwname:
+                    kw_ok = False
+            splats = [k for n in _walk_fn(fn) if isinstance(n, ast.Call) for k in n.keywords if k.arg is None
+                      and isinstance(k.value, ast.Name) and k.value.id == self.kwname]
+            uses = [n for n in _walk_fn(fn) if isinstance(n, ast.Name) and n.id == self.kwname]
+            kw_ok = len(uses) == len(splats) and bool(splats)
+        self.simple = not (a.vararg or a.posonlyargs) and kw_ok and not fn.decorator_list and isinstance(fn, ast.FunctionDef)
         self.params = [x.arg for x in a.args] + [x.arg for x in a.kwonlyargs]
         self.defaults = {}
         for p, d in zip(reversed(a.args), reversed(a.defaults)):
@@ -503,14 +527,18 @@ class Helper:
                 raise NotInlineable("method without self")
             mapping[params[0]] = recv
             params = params[1:]
-        if any(isinstance(a, ast.Starred) for a in args) or any(k.arg is None for k in call.keywords):
+        if any(isinstance(a, ast.Starred) for a in args) or (any(k.arg is None for k in call.keywords) and not self.kwname):
             raise NotInlineable("star arguments")
         npos = len(self.fn.args.args) - (1 if method else 0)
         if len(args) > npos:
             raise NotInlineable("too many positional arguments")
         for p, a in zip(params, args):
             mapping[p] = a
+        self._extras = []
         for k in call.keywords:
+            if self.kwname and (k.arg is None or k.arg not in params):
+                self._extras.append(k)  # goes into **kwargs, in call order
+                continue
             if k.arg not in params or k.arg in mapping:
                 raise NotInlineable("keyword mismatch")
             mapping[k.arg] = k.value
@@ -526,11 +554,25 @@ class Helper:
         mapping = self.bind(call, method)
         body = copy.deepcopy(self.body)
         wrapper = ast.Module(body=body, type_ignores=[])
+        if self.kwname:
+            extras = list(self._extras)
+            for n in ast.walk(wrapper):
+                if isinstance(n, ast.Call):
+                    new_kw = []
+                    for k in n.keywords:
+                        if k.arg is None and isinstance(k.value, ast.Name) and k.value.id == self.kwname:
+                            new_kw.extend(copy.deepcopy(extras))
+                        else:
+                            new_kw.append(k)
+                    n.keywords = new_kw
+            locs_kw = {self.kwname}
+        else:
+            locs_kw = set()
         written = set()
         for st in body:
             written |= _roots_written(st) & set(self.params)
         rebound = {n.id for st in body for n in _walk_stmt(st) if isinstance(n, ast.Name) and isinstance(n.ctx, (ast.Store, ast.Del))}
-        locs = (fn_locals(self.fn) - set(self.params))
+        locs = (fn_locals(self.fn) - set(self.params)) - locs_kw
         ren = {}
         for v in sorted(locs):
             if v in taken:
@@ -708,7 +750,7 @@ def _inline_in_function(fn, helpers, chelp, inlined):
                 continue
             try:
                 pro, body = h.instantiate(call, method, taken)
-                if as_expression(body) is not None and not pro:
+                if as_expression(body) is not None and not pro and not h.is_gen:
                     i += 1
                     continue  # handled as an expression below
                 if kind == "assign":
@@ -956,6 +998,53 @@ def split_conditionals(fn):
     return n
 
 
+# ------------------------------------------------------------------------- N8 keyword dicts
+def expand_keyword_dicts(fn, candidates):
+    """`kw = {"a": x, "b": y}` ... `f(**kw)`: a new local bound once to a dict display with constant string keys, never
+    written to and used only as `**kw`, is spelled out as explicit keywords at every call"""
+    done = 0
+    for owner, field, lst in _stmt_lists(fn):
+        for i, st in enumerate(list(lst)):
+            if not (isinstance(st, ast.Assign) and len(st.targets) == 1 and isinstance(st.targets[0], ast.Name)
+                    and isinstance(st.value, ast.Dict) and st.value.keys
+                    and all(isinstance(k, ast.Constant) and isinstance(k.value, str) and k.value.isidentifier() for k in st.value.keys)):
+                continue
+            var = st.targets[0].id
+            if var not in candidates:
+                continue
+            stores = [n for n in _walk_fn(fn) if isinstance(n, ast.Name) and n.id == var and isinstance(n.ctx, (ast.Store, ast.Del))]
+            loads = [n for n in _walk_fn(fn) if isinstance(n, ast.Name) and n.id == var and isinstance(n.ctx, ast.Load)]
+            splats = [k for n in _walk_fn(fn) if isinstance(n, ast.Call) for k in n.keywords if k.arg is None and k.value in loads]
+            if len(stores) != 1 or len(splats) != len(loads) or not loads:
+                continue
+            if not all(is_pure(v) or isinstance(v, ast.Name) for v in st.value.values):
+                continue
+            free = {n.id for v in st.value.values for n in ast.walk(v) if isinstance(n, ast.Name)}
+            later = lst[lst.index(st) + 1:]
+            if not all(any(_contains(s_, u) for s_ in later) for u in loads):
+                continue
+            # the bundle holds references: only a *re-binding* of a name it mentions (not a mutation of the object) matters
+            last = max(k_ for k_ in range(len(later)) if any(_contains(later[k_], u) for u in loads))
+            rebound = {n.id for s_ in later[:last + 1] for n in ast.walk(s_) if isinstance(n, ast.Name) and isinstance(n.ctx, (ast.Store, ast.Del))}
+            if rebound & free:
+                continue
+            for n in _walk_fn(fn):
+                if isinstance(n, ast.Call) and any(k in splats for k in n.keywords):
+                    new_kw = []
+                    for k in n.keywords:
+                        if k in splats:
+                            new_kw.extend(ast.keyword(arg=kk.value, value=copy.deepcopy(vv)) for kk, vv in zip(st.value.keys, st.value.values))
+                        else:
+                            new_kw.append(k)
+                    n.keywords = new_kw
+                    ast.fix_missing_locations(n)
+            lst.remove(st)
+            if not lst:
+                lst.append(ast.copy_location(ast.Pass(), st))
+            done += 1
+    return done
+
+
 # ------------------------------------------------------------------------- N5 counted loops
 def _has_continue(stmts):
     for st in stmts:
@@ -1035,9 +1124,10 @@ def normalise(tree, modname, shape_all=None, keep=frozenset()):
             continue
         new_locals = fn_locals(fn) - set(pinned["locals"])
         if new_locals:
+            kd = expand_keyword_dicts(fn, new_locals)
             k = forward_substitute(fn, new_locals)
-            if k:
-                log["substituted"][q] = k
+            if k or kd:
+                log["substituted"][q] = k + kd
         k = counted_loops(fn)
         while k and counted_loops(fn):
             pass
@@ -1045,7 +1135,10 @@ def normalise(tree, modname, shape_all=None, keep=frozenset()):
             log["counted_loops"][q] = k
             forward_substitute(fn, fn_locals(fn) - set(pinned["locals"]))
         if pinned.get("ifexp", 0) == 0:
-            k = split_conditionals(fn)
-            if k:
-                log["conditionals"][q] = k
+            k = total = split_conditionals(fn)
+            while k:
+                k = split_conditionals(fn)
+                total += k
+            if total:
+                log["conditionals"][q] = total
     return log
